@@ -181,7 +181,7 @@ Qed.
 Theorem rooms_grid_inv gl x : Leaf (rooms_grid h w ysp xsp gl) x -> x = Err ValueError \/ exists g, x = Ok g /\ rinv g.
 Proof.
   unfold rooms_grid. intros HL.
-  destruct (negb (nodupb ysp)); [apply Leaf_Raise in HL; auto|]. destruct (negb (nodupb xsp)); [apply Leaf_Raise in HL; auto|].
+  destruct (negb (gapsb ysp)); [apply Leaf_Raise in HL; auto|]. destruct (negb (gapsb xsp)); [apply Leaf_Raise in HL; auto|].
   destruct room_grid_rinv as (g1 & E1 & C1). rewrite E1 in HL. cbn [lift bind] in HL. rewrite inner_ysp, inner_xsp in HL.
   set (jobs1 := flat_map (fun y => map (fun pr => (y, pr)) (pairwise xsp)) ym) in *.
   set (jobs2 := flat_map (fun pr => map (fun x0 => (x0, pr)) xm) (pairwise ysp)) in *.
